@@ -11,7 +11,7 @@ def designed_world(src, tag="w", max_levels=3):
     cst_<axis> (unique per level and in-plane cell, constant along that axis), rnd."""
     m = world.gen_mesh(src, tag=tag, force_3d=True, max_levels=max_levels, min_cells0=4, max_blocks0=3,
                        max_boxes=16)
-    m.fields = ["aff_x", "aff_y", "aff_z", "cst_x", "cst_y", "cst_z", "rnd"]
+    m.fields = ["aff_x", "aff_y", "aff_z", "cst_x", "cst_y", "cst_z", "rnd", "ext"]
     world.gen_layout(src, m, tag=tag)
     seed = src.draw(f"{tag}.dataseed", 0, 999999)
     rng = np.random.default_rng(seed)
@@ -19,13 +19,22 @@ def designed_world(src, tag="w", max_levels=3):
 
     def fn(lv, b, idx, coords):
         shp = idx[0].shape
-        out = np.empty(shp + (7,))
+        out = np.empty(shp + (8,))
         for d in range(3):
             out[..., d] = A0 + B0 * (coords[d] - m.geo_low[d]) / L[d]
             cx, cy = [a for a in range(3) if a != d]
             out[..., 3 + d] = (lv + 1) * 1.0e6 + idx[cx] * 1000.0 + idx[cy] + 0.5
         # one magnitude everywhere: a zero-weight neighbour sample then costs at most rounding
         out[..., 6] = rng.uniform(1.0, 2.0, shp)
+        # non-finite payloads next to ordinary ones: the interpolation formula must not turn inf
+        # into NaN (checked only for planes strictly between cell centres, where no zero-weight
+        # sample can enter; values near the float64 limits are left out: their interpolation is
+        # dominated by rounding)
+        ext = rng.standard_normal(shp)
+        pick = rng.integers(0, 8, shp)
+        for k_, v_ in enumerate([np.inf, -np.inf, np.nan, np.inf]):
+            ext[pick == k_] = v_
+        out[..., 7] = ext
         return out
     world.fill_with(m, fn)
     world.gen_cosmetics(src, m, tag)
@@ -131,3 +140,11 @@ def bracket(m, lv, cn, pos):
     if k < 0 or k + 1 > n - 1:
         return None
     return k, k + 1, False
+
+
+def close(g, w, rtol):
+    """Closeness that treats equal infinities and NaN-vs-NaN as equal."""
+    g = np.asarray(g, dtype=float)
+    w = np.asarray(w, dtype=float)
+    with np.errstate(all="ignore"):
+        return (np.abs(g - w) <= rtol * np.abs(w)) | (g == w) | (np.isnan(g) & np.isnan(w))
